@@ -8,6 +8,9 @@ import Moyo.Model.DriverC16
 import Moyo.Model.DriverPipe
 import Moyo.Model.DriverC07
 import Moyo.Model.DriverStage
+import Moyo.Model.DriverS13
+import Moyo.Model.DriverS5
+import Moyo.Model.DriverS6
 import Moyo.Model.DriverC19
 import Moyo.Model.DriverC20
 import Moyo.Model.DriverMag
@@ -140,6 +143,9 @@ def handlers : List (String → Option String) := [
   Moyo.DriverC07.step?,
   Moyo.DriverPipe.step?,
   Moyo.DriverStage.step?,
+  Moyo.DriverS13.step?,
+  Moyo.DriverS5.step?,
+  Moyo.DriverS6.step?,
   Moyo.DriverC08.step?,
   Moyo.DriverC14.step?,
   Moyo.DriverC16.step?,
